@@ -190,6 +190,16 @@ func (br *xmpReader) readTagHeader(parent Tag) (tag Tag, err error) {
 		// Find Start of Tag
 		for ; i < len(buf); i++ {
 			if buf[i] == '<' {
+				if i > 0 {
+					// the tag starts inside the window: drop what precedes it so that
+					// the whole tag header is within the look-ahead
+					if _, err = br.Discard(i); err != nil {
+						err = errors.Wrap(err, "Tag Header (discard)")
+						return
+					}
+					i, s = 0, 0
+					break
+				}
 				if buf[i+1] == '/' {
 					tag.t = stopTag
 					i += 2
